@@ -92,4 +92,10 @@ theorem conv_pins :
     ∧ ConvSrc.pin_SE3_ctor_parts = "SE3(const SO3Base<SO3Derived> & so3, const Eigen::MatrixBase<T3Derived> & r3) { Base::so3() = static_cast<const SO3Derived &>(so3); Base::r3() = static_cast<const T3Derived &>(r3); }" := by
   exact ⟨rfl, rfl, rfl, rfl, rfl, rfl, rfl, rfl⟩
 
+/-- from-parts constructors of `Galilei` and `SE_K_3` (layout compared bit for bit by `conv_gal_parts_ctor`, `conv_sek2_parts_ctor`):
+    pinned bodies -/
+theorem conv_pins_parts :
+    ConvSrc.pin_Galilei_ctor_parts = "Galilei( const SO3Base<SO3Derived> & so3, const Eigen::MatrixBase<T1> & r3_v, const Eigen::MatrixBase<T2> & r3_p, double r1_t = 0) { Base::so3() = static_cast<const SO3Derived &>(so3); Base::r3_v() = static_cast<const T1 &>(r3_v); Base::r3_p() = static_cast<const T2 &>(r3_p); Base::r1_t().x() = r1_t; }"
+    ∧ ConvSrc.pin_SEK3_ctor_parts = "SE_K_3(const SO3Base<SO3Derived> & so3, const Eigen::MatrixBase<RnDerived> &... r3s) requires(sizeof...(r3s) == K) { const auto tpl = std::forward_as_tuple(r3s...); Base::so3() = static_cast<const SO3Derived &>(so3); #ifdef __clang__ #pragma GCC diagnostic push #pragma GCC diagnostic ignored \"-Wunused-lambda-capture\" #endif utils::static_for<K>([this, &tpl](auto i) { Base::template r3<i>() = std::get<i>(tpl); }); #ifdef __clang__ #pragma GCC diagnostic pop #endif }" := ⟨rfl, rfl⟩
+
 end SrcTieConv
